@@ -691,3 +691,11 @@ func eq(a, b string) string {
 
 func sel(arr, idx string) string    { return "(select " + arr + " " + idx + ")" }
 func sto(arr, idx, v string) string { return "(store " + arr + " " + idx + " " + v + ")" }
+
+// freshFun declares a new uninterpreted function with a readable unique name.
+func (q *Q) freshFun(hint string, args []string, ret string) string {
+	hint = mangle(hint)
+	q.fresh[hint]++
+	name := fmt.Sprintf("|%s!%d|", hint, q.fresh[hint])
+	return q.declareFun(name, args, ret)
+}
